@@ -558,6 +558,8 @@ def cli_equivalence(tier):
         ds4['lat'].encoding.update(dtype='int16', scale_factor=0.05, add_offset=-20.0, _FillValue=numpy.int16(-32768))
         ds4['lon'].encoding.update(dtype='int16', scale_factor=0.05, add_offset=150.0, _FillValue=numpy.int16(-32768))
         datasets['cf1d-packed'] = ds4
+        # many variables (more than a file-handle cache holds): the clipped pieces must still be there when the result is saved
+        datasets['cf1d-many'] = builders.cf1d(2, 3, data_vars={f'v{k:03d}': (('y', 'x'), numpy.arange(6.0).reshape(2, 3) + k) for k in range(140)})
         for name, ds in datasets.items():
             src = os.path.join(work, f'{name}.nc')
             ds.to_netcdf(src)
